@@ -507,6 +507,10 @@ func (i *interpreter) makeSize(lnv, cpv value, elem types.Type, fr *frame, instr
 	if ln > cp {
 		panic(runtimeErr("makeslice: cap out of range"))
 	}
+	if cp > 1<<47 {
+		// beyond the address space the Go runtime accepts (maxAlloc on 64-bit platforms), whatever the element size
+		panic(runtimeErr("makeslice: len out of range"))
+	}
 	if cp > 1<<24 {
 		// A huge concrete or concretised allocation: the memory monitor has judged it (if symbolic); the engine
 		// does not materialise it.
